@@ -58,14 +58,20 @@ def kwargs_from_call(
     kwdefaults: Dict[str, Any],
     args: Tuple[Any, ...],
     kwargs: Dict[str, Any],
+    positional_only: Optional[Set[str]] = None,
 ) -> MutableMapping[str, Any]:
     """
     Inspect the input values received at the wrapper for the actual function call.
 
-    :param param_names: parameter (*i.e.* argument) names of the original (decorated) function
+    :param param_names:
+        names of the parameters of the original (decorated) function which can be supplied positionally,
+        in the order of the declaration
     :param kwdefaults: default argument values of the original function
     :param args: arguments supplied to the call
     :param kwargs: keyword arguments supplied to the call
+    :param positional_only:
+        names of the positional-only parameters of the original function, if any.
+        A keyword argument of such a name does not bind the parameter (it lands in the variable keyword arguments).
     :return: resolved arguments as they would be passed to the function
     """
     # (Marko Ristin, 2020-12-01)
@@ -96,6 +102,9 @@ def kwargs_from_call(
             pass  # pragma: no cover
 
     for key, val in kwargs.items():
+        if positional_only is not None and key in positional_only:
+            continue
+
         resolved_kwargs[key] = val
 
     return resolved_kwargs
@@ -688,7 +697,20 @@ def decorate_with_checker(func: CallableT) -> CallableT:
             "a reserved placeholder for keyword arguments in the condition."
         )
 
-    param_names = list(sign.parameters.keys())
+    # Only the parameters which can be supplied positionally are resolved by their index in the call.
+    # The keyword-only parameters and the variable keyword arguments can never be bound by a positional argument.
+    param_names = [
+        param.name
+        for param in sign.parameters.values()
+        if param.kind
+        not in (inspect.Parameter.KEYWORD_ONLY, inspect.Parameter.VAR_KEYWORD)
+    ]
+
+    positional_only = {
+        param.name
+        for param in sign.parameters.values()
+        if param.kind == inspect.Parameter.POSITIONAL_ONLY
+    }
 
     # Determine the default argument values
     kwdefaults = resolve_kwdefaults(sign=sign)
@@ -743,6 +765,7 @@ def decorate_with_checker(func: CallableT) -> CallableT:
                     kwdefaults=kwdefaults,
                     args=args,
                     kwargs=kwargs,
+                    positional_only=positional_only,
                 )
 
                 type_error = _assert_resolved_kwargs_valid(
@@ -826,6 +849,7 @@ def decorate_with_checker(func: CallableT) -> CallableT:
                     kwdefaults=kwdefaults,
                     args=args,
                     kwargs=kwargs,
+                    positional_only=positional_only,
                 )
 
                 type_error = _assert_resolved_kwargs_valid(
